@@ -45,7 +45,10 @@ func TestC19(t *testing.T) {
 // quietTail: faults stop; within the budget every honest node that is up must be on the same chain.
 func quietTail(t *rapid.T, w *chainsim.World, m *chainsim.Monitor, adv *chainsim.Adversary) {
 	s := w.S
-	// let the scheduled restarts happen (a node is down for at most 20 block slots, a long outage for 60)
+	// no new kills from here on (an armed kill waits for a step with enough commits, which may be the catching-up
+	// synchronization itself); let the scheduled restarts happen (a node is down for at most 20 block slots, a long
+	// outage for 60)
+	s.DisarmCrashes()
 	s.Run(s.Now()+61*w.BlockTime, 600000, nil)
 	s.Heal()
 	s.ClearBans()
